@@ -53,6 +53,10 @@ type Machine struct {
 	extra     map[string]interface{}
 	clock     int64
 	timers    []value
+	pdoms     map[*ssa.Function]*pdomInfo
+	foldable  map[*ssa.BasicBlock]bool
+	spec      int
+	folds     int
 }
 
 type inputRec struct {
@@ -82,6 +86,7 @@ type frame struct {
 	panic            interface{}
 	phitemps         []value
 	callInstr        ssa.Instruction
+	skipPhis         bool
 }
 
 func (fr *frame) get(key ssa.Value) value {
@@ -140,8 +145,11 @@ func (m *Machine) ensureInit(pkg *ssa.Package) {
 		m.inited[pkg] = 2
 		return
 	}
-	if m.env.SkipInit[pkg.Pkg.Path()] {
+	if m.env.SkipInit[pkg.Pkg.Path()] || defaultSkipInit(pkg.Pkg.Path()) {
 		m.inited[pkg] = 2
+		if m.trace {
+			fmt.Fprintf(os.Stderr, "skip init of %s\n", pkg.Pkg.Path())
+		}
 		return
 	}
 	m.inInit++
@@ -158,6 +166,21 @@ func (m *Machine) ensureInit(pkg *ssa.Package) {
 		m.inited[pkg] = 2
 	}()
 	m.callSSA(nil, token.NoPos, init, nil, nil)
+}
+
+// defaultSkipInit: run-time/system packages whose initializers talk to the
+// OS or the Go runtime and are never the subject of a property.
+func defaultSkipInit(path string) bool {
+	switch path {
+	case "runtime", "syscall", "os", "unsafe", "reflect", "internal/reflectlite", "net", "os/signal", "os/exec", "os/user", "plugin", "testing":
+		return true
+	}
+	for _, p := range []string{"runtime/", "internal/", "net/", "golang.org/x/sys/", "crypto/internal/", "vendor/"} {
+		if strings.HasPrefix(path, p) {
+			return true
+		}
+	}
+	return false
 }
 
 func deref(t types.Type) types.Type {
@@ -264,7 +287,11 @@ func (m *Machine) visitInstr(fr *frame, instr ssa.Instruction) continuation {
 		m.store(fr.get(instr.Addr), fr.get(instr.Val))
 	case *ssa.If:
 		succ := 1
-		if m.branch(fr.get(instr.Cond).(*smt.Term)) {
+		cond := fr.get(instr.Cond).(*smt.Term)
+		if !cond.IsConst() && m.spec == 0 && !m.env.NoFold && m.tryFold(fr, cond) {
+			return kJump
+		}
+		if m.branch(cond) {
 			succ = 0
 		}
 		fr.prevBlock, fr.block = fr.block, fr.block.Succs[succ]
@@ -506,6 +533,11 @@ func (m *Machine) call(caller *frame, callpos token.Pos, fn value, args []value)
 
 func (m *Machine) callSSA(caller *frame, callpos token.Pos, fn *ssa.Function, args []value, env []value) value {
 	if fn.Parent() == nil {
+		if m.inInit > 0 && fn.Name() == "init" && fn.Synthetic != "" && caller != nil {
+			// package initializer called from another initializer: packages are
+			// initialized lazily on first touch of one of their globals
+			return nil
+		}
 		name := fn.String()
 		if fn.Origin() != nil {
 			// instantiated generic: also try the origin's name
@@ -621,6 +653,10 @@ func (m *Machine) executePhis(fr *frame) []ssa.Instruction {
 		}
 	}
 	nonPhis := fr.block.Instrs[firstNonPhi:]
+	if fr.skipPhis {
+		fr.skipPhis = false
+		return nonPhis
+	}
 	if firstNonPhi > 0 {
 		phis := fr.block.Instrs[:firstNonPhi]
 		predIndex := -1
